@@ -19,7 +19,7 @@ RULE = ("fault enumeration on the real front ends: an exception injected into th
         "the same point must predict the number of intact rounds.  non-trivial = fault strikes after at least one completed phase")
 
 
-HANG_LIMIT_S = 120
+HANG_LIMIT_S = 60
 
 
 class Injected(ValueError):
@@ -43,7 +43,7 @@ def digest_result(r):
 
 
 def run_with_fault(cfg, fault, procs=1, mp=False):
-    """fault = ('task', round, cluster) | ('phase', name, round) | None"""
+    """fault = ('task', round, cluster) | ('post', round, cluster) | ('phase', name, round) | None"""
     from fast_ticc import graphical_lasso as gl, cluster_maintenance as cm, cluster_label_assignment as cla, main_loop
     state = {"round_tasks": 0, "calls": {}}
     undo = []
@@ -53,14 +53,28 @@ def run_with_fault(cfg, fault, procs=1, mp=False):
             orig = gl._setup_optimization_task
             K = cfg["K"]
 
-            def setup(cluster, n, w, lam, pool):
+            def setup(cluster, n, w, lam, pool, *more, **kwmore):
+                # (extra arguments a revised helper may take are handed through untouched)
                 t = state["round_tasks"]
                 state["round_tasks"] += 1
                 if (t // K, t % K) == (fault[1], fault[2]):
                     return pool.apply_async(raise_fault, [], {})
-                return orig(cluster, n, w, lam, pool)
+                return orig(cluster, n, w, lam, pool, *more, **kwmore)
             gl._setup_optimization_task = setup
             undo.append(lambda: setattr(gl, "_setup_optimization_task", orig))
+        if fault and fault[0] == "post":
+            # the parent-side post-processing of one cluster's optimisation result (inverse, log-determinant, floor)
+            orig_post = gl._update_cluster_covariances
+            K = cfg["K"]
+
+            def post(*a, **k):
+                t = state["calls"].get("post", 0)
+                state["calls"]["post"] = t + 1
+                if (t // K, t % K) == (fault[1], fault[2]):
+                    raise Injected("injected failure in the post-processing of an optimisation result")
+                return orig_post(*a, **k)
+            gl._update_cluster_covariances = post
+            undo.append(lambda: setattr(gl, "_update_cluster_covariances", orig_post))
         if fault and fault[0] == "phase":
             mod, name = {"statistics": (cm, "update_all_cluster_statistics"), "relabel": (cla, "predict_cluster_labels"),
                          "repopulate": (cm, "repopulate_empty_clusters"), "optimise": (gl, "optimize_markov_random_fields")}[fault[1]]
@@ -157,17 +171,22 @@ def run(ctx):
         faults = [("task", rd, k) for rd in range(min(3, nrounds)) for k in range(K)]
         faults += [("phase", ph, rd) for ph in ("statistics", "optimise", "relabel") for rd in range(min(3, nrounds))]
         faults += [("phase", "repopulate", rd) for rd in range(1, min(3, nrounds))]
+        faults += [("post", rd, k) for rd in range(min(2, nrounds)) for k in (0, K - 1)]
+        hung = {}
         modes = [(1, False), (2, True)] if not ctx.thorough else [(1, False), (1, True), (2, True), (3, True)]
         for (procs, mp) in modes:
             for fi, fault in enumerate(faults):
                 if not ctx.thorough and mp and fi % 3 != 0:
                     continue
                 case = {"cfg": BASE, "fault": list(fault), "procs": procs, "multiprocessing": mp}
+                if hung.get(fault[0], 0) >= 2:
+                    continue      # two calls with this kind of fault already hang: reported, no need to wait for the others
                 r = run_with_fault(BASE, fault, procs, mp)
                 ctx.count("fault:%s" % fault[0])
                 hist["faults"] += 1
                 hist["pool_modes"]["%d/%s" % (procs, mp)] = hist["pool_modes"].get("%d/%s" % (procs, mp), 0) + 1
                 if (r["error"] or "").startswith("HANG"):
+                    hung[fault[0]] = hung.get(fault[0], 0) + 1
                     ctx.violation("monitor", "the call with fault %s hangs" % (fault,), {"case": case})
                     continue
                 if r["result"] is not None:
@@ -195,7 +214,7 @@ def run(ctx):
                 fr = lin if fault == ("phase", "repopulate", rd) else None
                 ff = lfit if fr is None else None
                 rl = looptrace.replay_literal(BASE["limit"], tr_clean, fail_repop=fr, fail_fit=ff)
-                if rl is not None and fault[0] == "task" or (fault[0] == "phase" and fault[1] in ("statistics", "optimise", "repopulate")):
+                if rl is not None and fault[0] in ("task", "post") or (fault[0] == "phase" and fault[1] in ("statistics", "optimise", "repopulate")):
                     if rl is not None:
                         replay_lits.append(rl)
                         meta.append((case, rd))
